@@ -46,6 +46,17 @@ pub fn run(repo: &str, header_wasm: Option<&str>) -> Result<()> {
     let empty_name_rejected = !accepts(&format!("(module (import \"{}\" \"\" (func)) (memory 1))", provider_module));
     let other_version_rejected = !accepts("(module (import \"shopify_function_v1\" \"shopify_function_input_get\" (func (result i64))) (memory 1))")
         && !accepts("(module (import \"shopify_function_v999\" \"x\" (func)) (memory 1))");
+    // the module name the tool treats as the API namespace is exactly the public one: every other spelling that
+    // starts with the version prefix (other numbers, leading zeros, signs, suffixes, no number) must be refused
+    let major: String = provider_module.trim_start_matches("shopify_function_v").to_string();
+    let n: u64 = major.parse().unwrap_or(0);
+    let mut module_probes = vec![provider_module.to_string()];
+    for v in [format!("0{}", major), format!("+{}", major), format!("{}_beta", major), format!("{}.0", major), format!("{}0", major), format!("{} ", major), "next".to_string(), "".to_string(),
+              format!("{}", n + 1), format!("{}", n.saturating_sub(1)), format!("00{}", major), format!("{}_", major), "x".to_string()] {
+        module_probes.push(format!("shopify_function_v{}", v));
+    }
+    let module_probe_results: Vec<serde_json::Value> = module_probes.iter().map(|m|
+        json!([m, accepts(&format!("(module (import \"{}\" \"shopify_function_input_get\" (func (result i64))) (memory 1))", m))])).collect();
     let two_memories_rejected = !accepts("(module (memory 1) (memory 1))");
     // what it emits for the all-imports guest
     let out = trampoline(&wat::parse_str(&guest_wat(&module, &imps)?)?)?;
@@ -56,7 +67,7 @@ pub fn run(repo: &str, header_wasm: Option<&str>) -> Result<()> {
         "wat": imps.iter().map(|i| json!([i.name, sig(&i.params, &i.results)])).collect::<Vec<_>>(),
         "trampoline_module": provider_module,
         "trampoline_accepts": accepted, "trampoline_rejects_wrong_sig": wrong_sig_rejected, "trampoline_accepts_wrong_sig": wrong_sig_accepted,
-        "unknown_rejected": unknown_rejected, "empty_name_rejected": empty_name_rejected, "other_version_rejected": other_version_rejected, "two_memories_rejected": two_memories_rejected,
+        "unknown_rejected": unknown_rejected, "empty_name_rejected": empty_name_rejected, "other_version_rejected": other_version_rejected, "two_memories_rejected": two_memories_rejected, "module_probes": module_probe_results,
         "trampoline_accepts_lowlevel": lowlevel_accepted, "trampoline_emits": emitted, "trampoline_memory_imports": d.mem_imports,
     });
     if let Some(h) = header_wasm { let b = std::fs::read(h)?; j["header"] = json!(func_imports(&b)?.into_iter().map(|(m, n, s)| json!([m, n, s])).collect::<Vec<_>>()); }
